@@ -396,6 +396,13 @@ func c18IndexPlatforms(g *imggen.Graph) []string {
 		osn, _ := rf.Platform["os"].(string)
 		arch, _ := rf.Platform["architecture"].(string)
 		v, _ := rf.Platform["variant"].(string)
+		if osn == "windows" {
+			// a windows entry is selected by its os version ("windows/amd64,osver=10.0.17763.1")
+			if ov, _ := rf.Platform["os.version"].(string); ov != "" {
+				out = append(out, osn+"/"+arch+",osver="+ov)
+			}
+			continue
+		}
 		if osn != "linux" {
 			continue
 		}
